@@ -1537,9 +1537,15 @@ def run(ck: Ck) -> None:
                       'is restated by c15_spec_* theorems) and checks/c15.py ref_quantise (independent Python restatement used by the oracle)')
     ck.trusted.append('translate/c15_frame.py tables D_COQ/S_COQ and READERS, translate/c15_container.py tables SAVE_FIELD/READ_FIELD/READ_ATTR '
                       '(which source expression is which field); checks/c15.py spec_history (independent restatement of what save must write)')
+    ck.trusted.append('translate/c15_norm.py: behaviour-preserving rewrites applied to vtf.py before the translators (module constants, '
+                      'precompiled structs, product loops, literal-tuple loops, unused enumerate, guard clauses, helper inlining, copy '
+                      'propagation of locals that name a side-effect-free expression over stable attributes or inside a call-free window); '
+                      'the polynomial evaluator of scale_down in translate/c15_pixel.py')
     ck.assumptions += [
         'a frame is not passed to its own copy_from/rescale_from (no aliasing of self and the parameter frame)',
-        'the container theorems are per site / per block; their composition into the whole file is tied by correspondence only',
+        'encode_file/decode_file and make_sheet/read_sheet are hand-written models of VTF.save/VTF.read and SheetSequence.make_data/'
+        'from_resource: the whole-file and sheet theorems are about the models; their tie to the source is the regenerated sites, flag '
+        'trees, side lists, loop nests and event order (instance obligations) plus the two-way container correspondence of every run',
         'pixel buffers hold bytes (array("B") / bytearray): every theorem about codecs is for components in 0..255',
         'width and height are powers of two (VTF.__init__ rejects everything else)',
         'Python int arithmetic is unbounded: the codec expressions are evaluated over N without wrap-around',
